@@ -6,6 +6,7 @@ texts, if p = parse(text) lies in the domain then parse(dump(p)) == p.
 from __future__ import annotations
 
 import itertools
+import random as _random
 import re
 from datetime import datetime, timedelta, timezone, tzinfo
 
@@ -167,6 +168,18 @@ def check_string(cx, http, DS, s):
         a = DS.Authorization("digest", {"username": s, "realm": "r"})
         d = a.to_header()
         cx.eq("authorization", s, d, DS.Authorization.from_header(d), a, "C06/authorization-params")
+        # the parameter names the Digest scheme defines (and a few it does not), each with a hostile value or a neighbour of one
+        rng = _random.Random(s)  # choices that depend on the string only: a replay sees the same ones
+        dk = rng.sample(["username", "realm", "nonce", "uri", "response", "opaque", "qop", "nc", "cnonce", "algorithm", "userhash", "stale", "domain", "charset", "z"], rng.randint(1, 4))
+        dv = {k: rng.choice([s, s + ", x", " " + s + " ", "auth, auth-int", " padded ", "a=b", "00000001", "SHA-256", s.strip() or "t"]) for k in dk}
+        for scheme_ in ("digest", rng.choice(["custom", "bearer", "negotiate", "dpop"])):
+            a = DS.Authorization(scheme_, dict(dv))
+            d = a.to_header()
+            rec.observe("authorization_with_scheme_defined_parameter_names")
+            cx.eq("authorization", dv, d, DS.Authorization.from_header(d), a, "C06/authorization-params")
+            w = DS.WWWAuthenticate(scheme_, dict(dv))
+            d = w.to_header()
+            cx.eq("www-authenticate", dv, d, DS.WWWAuthenticate.from_header(d), w, "C06/www-authenticate-params")
         w = DS.WWWAuthenticate("digest", {"realm": s, "nonce": "n", "x": s})
         d = w.to_header()
         cx.eq("www-authenticate", s, d, DS.WWWAuthenticate.from_header(d), w, "C06/www-authenticate-digest")
@@ -263,7 +276,10 @@ def check_structured(cx, http, DS, rng, cfg):
                 d = http.http_date(_time.localtime(ts))
                 cx.eq("date", "localtime tuple", d, http.parse_date(d), exp, "C06/date-from-time-tuple")
     # age
-    a = rng.choice([0, 1, 59, 60, 3600, 86400 * 365, 10**9, rng.randrange(10**7), timedelta(seconds=rng.randrange(10**6)), timedelta(days=2, seconds=3)])
+    a = rng.choice([0, 1, 59, 60, 3600, 86400 * 365, 10**9, rng.randrange(10**7), timedelta(seconds=rng.randrange(10**6)), timedelta(days=2, seconds=3),
+                    # the whole range of ages a timedelta can hold, with the powers of two where fixed-width counters end
+                    2**31 - 1, 2**31, 2**31 + 1, 2**32, 2**32 + rng.randrange(10**6), rng.randrange(2**31, 2**46), 86399999999999, timedelta(days=36500),
+                    timedelta(days=rng.randrange(24855, 999999999)), timedelta(days=999999999, seconds=86399)])
     with rec.guard({"pair": "age", "value": repr(a)}, "C06"):
         d = http.dump_age(a)
         rec.nontrivial(("age", repr(a)))
